@@ -181,7 +181,7 @@ class Gen:
                     # a negative stop cannot be written as a literal bound that means "before 0"; keep the chain valid
                     e = 0
                     se = self.bound(0)
-                    idxs = list(range(a, e, step))
+                    idxs = list(range(a, e, step)) if step != 0 else []
                 if step == 1 and r.random() < 0.5:
                     txt = f"{sa}:{se}"
                     self.features["defaulted bound"] += 1
